@@ -1074,6 +1074,10 @@ def _process_add_event_tick(
             continue
         wait_conditions = state.workers[step_name].collected_waiters
         for wait_condition in wait_conditions:
+            if wait_condition.resolved_event is not None or wait_condition.timed_out:
+                # already resolved (or timed out): the replay of the waiting step is
+                # pending; a further matching event must not replay it again
+                continue
             is_match = type(tick.event) is wait_condition.waiting_for_event
             is_match = is_match and all(
                 getattr(tick.event, k, None) == v
